@@ -70,6 +70,11 @@ pub struct DirScript {
     /// first `argument` payload bytes
     #[serde(default)]
     pub ws_ops: Vec<(u64, u8, u64)>,
+    /// TLS carrier: the link node terminates TLS on both of its sockets (it holds the simulated certificate's key) and
+    /// forwards the *plaintext* stream under this script; every forwarded piece is written and flushed on its own, i.e.
+    /// travels as TLS record(s) of its own, so `cuts` are record boundaries as seen by the receiver's TLS layer
+    #[serde(default)]
+    pub tls: bool,
 }
 
 impl DirScript {
@@ -214,7 +219,7 @@ where
         let (pieces, ended) = transform(&script, base, &buf[..n], &mut dup_buf);
         let mut fwd = base;
         for (p, gap) in pieces {
-            if wr.write_all(&p).await.is_err() {
+            if wr.write_all(&p).await.is_err() || wr.flush().await.is_err() {
                 return 2;
             }
             fwd += p.len() as u64;
@@ -525,6 +530,45 @@ pub async fn run_proxy(c2s: DirScript, s2c: DirScript, obs: Arc<Mutex<ProxyObs>>
             }
             let (in_cid, out_cid) = (inbound.conn_id(), outbound.conn_id());
             obs.lock().unwrap().live.push((in_cid, out_cid));
+            if c2s.tls || s2c.tls {
+                let Some((acceptor, connector)) = tls_ends() else {
+                    obs.lock().unwrap().dial_failed += 1;
+                    return;
+                };
+                let name = tokio_rustls::rustls::pki_types::ServerName::try_from("sim.test").unwrap();
+                let (i, o) = tokio::join!(acceptor.accept(inbound), connector.connect(name, outbound));
+                match (i, o) {
+                    (Ok(i), Ok(o)) => forward(i, o, c2s, s2c, obs, conn).await,
+                    _ => obs.lock().unwrap().dial_failed += 1,
+                }
+            } else {
+                forward(inbound, outbound, c2s, s2c, obs, conn).await
+            }
+        }));
+    }
+}
+
+/// TLS ends of the link node: it presents the simulated certificate to the client and trusts it when dialling the server
+fn tls_ends() -> Option<(tokio_rustls::TlsAcceptor, tokio_rustls::TlsConnector)> {
+    use tokio_rustls::rustls;
+    use tokio_rustls::rustls::pki_types::pem::PemObject;
+    let _ = rustls::crypto::aws_lc_rs::default_provider().install_default();
+    let cert = rustls::pki_types::CertificateDer::from_pem_file(crate::plan::CERT).ok()?;
+    let key = rustls::pki_types::PrivateKeyDer::from_pem_file(crate::plan::KEY).ok()?;
+    let mut roots = rustls::RootCertStore::empty();
+    roots.add(cert.clone()).ok()?;
+    let client = rustls::ClientConfig::builder().with_root_certificates(roots).with_no_client_auth();
+    let server = rustls::ServerConfig::builder().with_no_client_auth().with_single_cert(vec![cert], key).ok()?;
+    Some((tokio_rustls::TlsAcceptor::from(Arc::new(server)), tokio_rustls::TlsConnector::from(Arc::new(client))))
+}
+
+async fn forward<I, O>(inbound: I, outbound: O, c2s: DirScript, s2c: DirScript, obs: Arc<Mutex<ProxyObs>>, conn: usize)
+where
+    I: tokio::io::AsyncRead + tokio::io::AsyncWrite + Unpin + Send + 'static,
+    O: tokio::io::AsyncRead + tokio::io::AsyncWrite + Unpin + Send + 'static,
+{
+    {
+        {
             let (ir, iw) = tokio::io::split(inbound);
             let (or, ow) = tokio::io::split(outbound);
             if c2s.reflect || s2c.reflect {
@@ -566,6 +610,6 @@ pub async fn run_proxy(c2s: DirScript, s2c: DirScript, obs: Arc<Mutex<ProxyObs>>
             } else {
                 let _ = (&mut a.0).await;
             }
-        }));
+        }
     }
 }
